@@ -6,7 +6,14 @@ use std::path;
     target_arch = "mips",
     target_arch = "powerpc"
 )))]
+#[cfg(not(zip_rs_zip_verif))]
 use std::sync::atomic;
+// Verification hook (off by default): under `--cfg zip_rs_zip_verif` the one piece of shared mutable
+// state between cloned archives becomes a scheduling point of the `shuttle` model scheduler.
+#[cfg(zip_rs_zip_verif)]
+mod atomic {
+    pub use shuttle::sync::atomic::{AtomicU64, Ordering};
+}
 #[cfg(not(feature = "time"))]
 use std::time::SystemTime;
 #[cfg(doc)]
